@@ -218,10 +218,10 @@ func (r *Run) Guard(fnName, cond, why string, opts ...GuardOpt) *Guard {
 	if opt.NoInline {
 		depth = 0
 	}
-	cond = normFull(cond)
+	cond = normFull(normCondText(cond))
 	want := []string{cond}
 	for _, a := range opt.Alt {
-		want = append(want, normFull(a))
+		want = append(want, normFull(normCondText(a)))
 	}
 	igs := r.inlinedRejects(fn, depth, map[*ssa.Function]bool{})
 	for _, ig := range igs {
@@ -746,6 +746,94 @@ type row struct {
 
 // X expands aliases ($name) in a spec string.
 func (r *Run) X(s string) string {
+	return normCondText(r.expand(s))
+}
+
+// normCondText brings a wanted condition text (with optional " @ ctx & ctx") to the same integer
+// normal form Cond.String produces (le against a constant → lt, length tests → eq/ne 0). Texts
+// that are not complete conditions (prefixes, effects) are returned unchanged.
+func normCondText(s string) string {
+	head, ctx, hasCtx := strings.Cut(s, " @ ")
+	nh, ok := normOneCond(head)
+	if !ok {
+		return s
+	}
+	if !hasCtx {
+		return nh
+	}
+	parts := strings.Split(ctx, " & ")
+	for i, p := range parts {
+		if np, ok := normOneCond(p); ok {
+			parts[i] = np
+		}
+	}
+	return nh + " @ " + strings.Join(parts, " & ")
+}
+
+func normOneCond(s string) (string, bool) {
+	i := strings.Index(s, "(")
+	if i < 0 || !strings.HasSuffix(s, ")") {
+		return s, false
+	}
+	op := s[:i]
+	switch op {
+	case "eq", "ne", "lt", "le":
+	case "T", "F":
+		return s, balanced(s[i+1 : len(s)-1])
+	default:
+		return s, false
+	}
+	body := s[i+1 : len(s)-1]
+	depth, cut := 0, -1
+	for j, ch := range body {
+		switch ch {
+		case '(', '[':
+			depth++
+		case ')', ']':
+			depth--
+			if depth < 0 {
+				return s, false
+			}
+		case ',':
+			if depth == 0 {
+				if cut >= 0 {
+					return s, false
+				}
+				cut = j
+			}
+		}
+	}
+	if depth != 0 || cut < 0 {
+		return s, false
+	}
+	c := Cond{op, &Path{Kind: "const", Name: body[:cut]}, &Path{Kind: "const", Name: body[cut+1:]}}
+	mk := func(p *Path) *Path {
+		if (strings.HasPrefix(p.Name, "len(") || strings.HasPrefix(p.Name, "cap(")) && strings.HasSuffix(p.Name, ")") && balanced(p.Name[4:len(p.Name)-1]) {
+			return &Path{Kind: "call", Name: p.Name[:3], Args: []*Path{{Kind: "const", Name: p.Name[4 : len(p.Name)-1]}}}
+		}
+		return p
+	}
+	c.L, c.R = mk(c.L), mk(c.R)
+	return c.String(), true
+}
+
+func balanced(s string) bool {
+	d := 0
+	for _, ch := range s {
+		switch ch {
+		case '(', '[':
+			d++
+		case ')', ']':
+			d--
+			if d < 0 {
+				return false
+			}
+		}
+	}
+	return d == 0
+}
+
+func (r *Run) expand(s string) string {
 	if r.alias == nil || !strings.Contains(s, "$") {
 		return s
 	}
@@ -767,7 +855,7 @@ func (r *Run) Alias(name, val string) {
 	if r.alias == nil {
 		r.alias = map[string]string{}
 	}
-	r.alias[name] = r.X(val)
+	r.alias[name] = r.expand(val)
 }
 
 func (r *Run) Guards(rows []row) {
